@@ -127,7 +127,9 @@ func runC08(args []string) int {
 	panics, corpus := c08NoPanic(r)
 	arr := c08Arrays(r)
 	r.Coverage["inline_array_aggregate_requests"] = arr
-	r.Coverage["evaluations"] = st.evals + corpus + arr
+	grp := c08GroupKeys(r)
+	r.Coverage["group_key_requests"] = grp
+	r.Coverage["evaluations"] = st.evals + corpus + arr + grp
 	r.Coverage["distinct_nontrivial"] = len(st.outcomes)
 	r.Coverage["rule"] = "one evaluation = one request executed on one document set; document sets = all multisets of <=k documents over the value alphabet (null-free and with nulls), requests = all terms of the grammar (atoms, _not, _and/_or pairs, 1-2 order keys x directions, limit/offset, aggregates, groupBy); distinct_nontrivial = number of distinct (request, canonical result) pairs with a non-empty result"
 	r.Coverage["document_sets"] = len(sets)
